@@ -1,0 +1,236 @@
+//! Verification hooks (cargo feature `verif`).
+//!
+//! This module contains no logic. It is an indirection that an external verification harness
+//! installs at run time: schedule points placed in the gaps between shared-state operations,
+//! lock/park interposition, thread life-cycle markers and observation events. Without an
+//! installed implementation every function is a no-op; without the feature nothing is compiled.
+#![allow(missing_docs, unreachable_pub, missing_debug_implementations, clippy::all)]
+
+use revm_context::result::ExecutionResult;
+use revm_primitives::U256;
+use revm_state::EvmState;
+use std::sync::OnceLock;
+
+/// Schedule-point kinds. The numbers only name the place in the source.
+pub mod pt {
+    // scheduler.rs: execute_task
+    pub const EXEC_START: u32 = 100;
+    pub const EXEC_DONE: u32 = 101;
+    pub const EXEC_DROP_WRITE: u32 = 102;
+    pub const EXEC_RECORD_HISTORY: u32 = 103;
+    pub const EXEC_DEP_ADD: u32 = 104;
+    pub const EXEC_DEP_REMOVE: u32 = 105;
+    pub const EXEC_KEY_TX: u32 = 106;
+    pub const EXEC_STATUS: u32 = 107;
+    pub const EXEC_ERR_HEAD_CHECK: u32 = 108;
+    pub const MARK_ESTIMATE: u32 = 109;
+    // scheduler.rs: validate
+    pub const VAL_TS: u32 = 120;
+    pub const VAL_READ: u32 = 121;
+    pub const VAL_VERDICT: u32 = 122;
+    pub const VAL_DEP_ADD: u32 = 123;
+    pub const VAL_NOTIFY: u32 = 124;
+    pub const VAL_START: u32 = 125;
+    // scheduler.rs: finality loop
+    pub const FIN_LOOP: u32 = 140;
+    pub const FIN_PUBLISH: u32 = 141;
+    pub const FIN_NOTIFY: u32 = 142;
+    pub const FIN_CANDIDATE: u32 = 143;
+    // scheduler.rs: commit loop
+    pub const COMMIT_LOOP: u32 = 160;
+    pub const COMMIT_PUBLISH: u32 = 161;
+    pub const COMMIT_DEP: u32 = 162;
+    pub const COMMIT_APPLY: u32 = 163;
+    // scheduler.rs: next / execution_task
+    pub const NEXT_VALIDATION_CLAIMED: u32 = 180;
+    pub const EXECUTION_TASK: u32 = 181;
+    // context.rs
+    pub const REWIND_ENTER: u32 = 200;
+    pub const REWIND_LOWER_TS: u32 = 201;
+    pub const REWIND_CURSOR: u32 = 202;
+    pub const FRONTIER_STORE: u32 = 203;
+    pub const FRONTIER_ADVANCE: u32 = 204;
+    pub const FRONTIER_PUBLISH_RELOAD: u32 = 205;
+    // cursor.rs
+    pub const CLAIM_CAS: u32 = 220;
+    pub const CURSOR_REWIND: u32 = 221;
+    // wait.rs
+    pub const WAIT_CHECK1: u32 = 240;
+    pub const WAIT_YIELD: u32 = 241;
+    pub const WAIT_CHECK2: u32 = 242;
+    pub const WAIT_PARK: u32 = 243;
+    pub const NOTIFY: u32 = 244;
+    // control.rs
+    pub const STARTED_CAS: u32 = 260;
+    pub const ABORT_STORE: u32 = 261;
+    pub const ABORT_REASON: u32 = 262;
+    // tx_dependency.rs
+    pub const DEP_INDEX: u32 = 280;
+    pub const DEP_LOCK: u32 = 281;
+    // incarnation_db.rs
+    pub const DB_BASIC: u32 = 300;
+    pub const DB_STORAGE: u32 = 301;
+    pub const DB_CODE: u32 = 302;
+    pub const DB_PUBLISH: u32 = 303;
+    // beneficiary/history.rs
+    pub const HIST_RECORD: u32 = 320;
+    pub const HIST_INVALIDATE: u32 = 321;
+    pub const HIST_SCAN: u32 = 322;
+    // parallel_state.rs
+    pub const PS_DESTROY_GAP: u32 = 340;
+    pub const PS_STORAGE_FILL: u32 = 341;
+    pub const PS_BASIC_FILL: u32 = 342;
+    // lock kinds
+    pub const LOCK_TX_STATE: u32 = 400;
+    pub const LOCK_TX_RESULT: u32 = 401;
+    pub const LOCK_DEP_STATE: u32 = 402;
+    pub const LOCK_DEP_AFFECT: u32 = 403;
+    pub const LOCK_SCHED_STATE: u32 = 404;
+    pub const LOCK_SCHED_RESULTS: u32 = 405;
+}
+
+/// Thread roles announced by the scheduler's spawned closures.
+pub mod role {
+    pub const FINALITY: u32 = 1;
+    pub const COMMIT: u32 = 2;
+    pub const WORKER: u32 = 3;
+}
+
+/// Observation-only events. Never a schedule point.
+pub enum Event<'a> {
+    AttemptStart { txid: usize, incarnation: usize, committed_idx: usize },
+    /// kind: 0 = ok, 1 = ok but read an estimate (conflict), 2 = error blocked on estimate,
+    /// 3 = invalid transaction, 4 = other EVM error
+    AttemptEnd { txid: usize, incarnation: usize, kind: u32, new_write_locations: bool },
+    ValidationEnd { txid: usize, incarnation: usize, ts: usize, conflict: bool },
+    Rewind { index: usize, ts: usize, previous: usize },
+    Finality { txid: usize, incarnation: usize, unconfirmed_ts: usize, lower_ts: usize },
+    FinalityRejected { txid: usize, unconfirmed_ts: usize, lower_ts: usize },
+    /// kind: 0 = fatal evm error, 1 = commit error, 2 = parallel error, 3 = fallback sequential
+    Abort { kind: u32, txid: usize },
+    Commit { txid: usize, result: &'a ExecutionResult, state: &'a EvmState, reward: Option<U256> },
+    CommitFallback { txid: usize },
+    SeqCommit { txid: usize, result: &'a ExecutionResult, state: &'a EvmState },
+    SeqSkipped { txid: usize },
+    SeqError { txid: usize },
+    DepAdd { txid: usize, dep: Option<usize> },
+    DepRemove { txid: usize, handoff: Option<usize> },
+    KeyTx { txid: usize },
+    PublishCommit { index: usize },
+    PublishFinality { index: usize },
+    Installed { outcomes: usize, committed_idx: usize },
+}
+
+pub trait VerifHooks: Sync {
+    /// Schedule point in front of a shared-state operation. May switch threads.
+    fn point(&self, kind: u32, a: usize);
+    /// Called immediately before a blocking lock acquisition; returns when `is_locked()` is false
+    /// and no other thread can run before the caller acquires the lock.
+    fn lock_point(&self, kind: u32, a: usize, is_locked: &dyn Fn() -> bool);
+    /// One iteration of a worker's busy-wait loop begins.
+    fn spin(&self);
+    /// `true` = the park was handled by the harness (returns once unparked).
+    fn park(&self, slot: usize) -> bool;
+    fn unpark(&self, slot: usize);
+    fn slot_register(&self, slot: usize);
+    fn thread_enter(&self, role: u32);
+    fn thread_exit(&self);
+    fn run_begin(&self, expected_children: usize);
+    fn external_block(&self, enter: bool);
+    fn event(&self, e: Event<'_>);
+}
+
+static HOOKS: OnceLock<&'static dyn VerifHooks> = OnceLock::new();
+
+/// Install the process-wide hook implementation. Only the first call has an effect.
+pub fn install(h: &'static dyn VerifHooks) {
+    let _ = HOOKS.set(h);
+}
+
+#[inline]
+pub fn point(kind: u32, a: usize) {
+    if let Some(h) = HOOKS.get() {
+        h.point(kind, a)
+    }
+}
+
+#[inline]
+pub fn lock_point<T>(kind: u32, a: usize, m: &parking_lot::Mutex<T>) {
+    if let Some(h) = HOOKS.get() {
+        h.lock_point(kind, a, &|| m.is_locked())
+    }
+}
+
+#[inline]
+pub fn spin() {
+    if let Some(h) = HOOKS.get() {
+        h.spin()
+    }
+}
+
+#[inline]
+pub fn park(slot: usize) -> bool {
+    HOOKS.get().is_some_and(|h| h.park(slot))
+}
+
+#[inline]
+pub fn unpark(slot: usize) {
+    if let Some(h) = HOOKS.get() {
+        h.unpark(slot)
+    }
+}
+
+#[inline]
+pub fn slot_register(slot: usize) {
+    if let Some(h) = HOOKS.get() {
+        h.slot_register(slot)
+    }
+}
+
+#[inline]
+pub fn run_begin(expected_children: usize) {
+    if let Some(h) = HOOKS.get() {
+        h.run_begin(expected_children)
+    }
+}
+
+#[inline]
+pub fn event(e: Event<'_>) {
+    if let Some(h) = HOOKS.get() {
+        h.event(e)
+    }
+}
+
+pub struct ThreadGuard(());
+
+pub fn thread_guard(role: u32) -> ThreadGuard {
+    if let Some(h) = HOOKS.get() {
+        h.thread_enter(role)
+    }
+    ThreadGuard(())
+}
+
+impl Drop for ThreadGuard {
+    fn drop(&mut self) {
+        if let Some(h) = HOOKS.get() {
+            h.thread_exit()
+        }
+    }
+}
+
+pub struct ExternalGuard(());
+
+pub fn external_block() -> ExternalGuard {
+    if let Some(h) = HOOKS.get() {
+        h.external_block(true)
+    }
+    ExternalGuard(())
+}
+
+impl Drop for ExternalGuard {
+    fn drop(&mut self) {
+        if let Some(h) = HOOKS.get() {
+            h.external_block(false)
+        }
+    }
+}
